@@ -70,6 +70,7 @@ type T struct {
 //	Timestamp(I sec, Ns) Arr(Vs) Hash(Vs = k0,v0,k1,v1,...) Entry(Vs = k,v) Sensitive(Vs[0]) Type(T)
 //	outside the Rocq model: Uri(S) SemVer(S) SemVerRange(S) Object(S = name of a harness object type, Vs = arguments)
 //	MutHash(Vs) (a *MutableHashValue)
+//	TName(N namespace, A authority, S name) Deferred(S name, Vs arguments) RObj(B second struct type, I, S, Vs) (names.go)
 //
 // R is the construction route (routes.go): "" = the plain constructor.  For the routes "from-array" and
 // "new-from-array" of a Hash, Vs holds the elements of the array that the Hash is made from.
@@ -83,6 +84,9 @@ type V struct {
 	S  Str    `json:"s,omitempty"`
 	Vs []*V   `json:"vs,omitempty"`
 	T  *T     `json:"t,omitempty"`
+	// TName (names.go): namespace N, authority A, name S
+	N Str `json:"n,omitempty"`
+	A Str `json:"a,omitempty"`
 }
 
 const maxI = math.MaxInt64
@@ -210,7 +214,7 @@ func (v *V) clean() bool { return !v.hasNaN() && !v.hasSensitive() }
 func (v *V) inModel() bool {
 	return !v.any(func(x *V) bool {
 		switch x.K {
-		case "Uri", "SemVer", "SemVerRange", "Object", "MutHash":
+		case "Uri", "SemVer", "SemVerRange", "Object", "MutHash", "TName", "Deferred", "RObj":
 			return true
 		}
 		return x.isRawFromArray()
@@ -219,7 +223,9 @@ func (v *V) inModel() bool {
 
 // expected to have a hash key: everything but Sensitive and Object values (inside or at the top)
 func (v *V) keyable() bool {
-	return !v.any(func(x *V) bool { return x.K == "Sensitive" || x.K == "Object" }, func(*T) bool { return false })
+	return !v.any(func(x *V) bool {
+		return x.K == "Sensitive" || x.K == "Object" || x.K == "TName" || x.K == "Deferred" || x.K == "RObj"
+	}, func(*T) bool { return false })
 }
 
 func (v *V) kinds(into map[string]bool) {
@@ -346,7 +352,12 @@ func (t *T) build(c px.Context) px.Type {
 	case "Iterable":
 		return types.NewIterableType(t.Ts[0].build(c))
 	case "Text":
-		return c.ParseType(string(t.S))
+		pt := c.ParseType(string(t.S))
+		if rt, ok := pt.(px.ResolvableType); ok && strings.HasPrefix(string(t.S), "TypeSet[") {
+			// a parsed TypeSet is a declaration that nothing has resolved yet (its versions are nil): resolve it, unregistered
+			pt = rt.Resolve(c)
+		}
+		return pt
 	}
 	panic("bad type description " + t.K)
 }
@@ -433,6 +444,8 @@ func (v *V) wellFormed() bool {
 		}
 	case "Type":
 		return v.T.wellFormed()
+	case "TName":
+		return v.nameExpr() != nil
 	case "Hash", "MutHash":
 		// the keys of a hash have hash keys (Hash.Equals builds the index)
 		for i := 0; i+1 < len(v.Vs); i += 2 {
@@ -463,6 +476,10 @@ func objectType(c px.Context, name string) px.Type {
 }
 
 func (v *V) build(c px.Context) px.Value {
+	switch v.K {
+	case "TName", "Deferred", "RObj":
+		return v.buildNamed(c)
+	}
 	if v.R != "" {
 		return v.buildRoute(c)
 	}
@@ -527,6 +544,8 @@ func (v *V) build(c px.Context) px.Value {
 			args[i] = e.build(c)
 		}
 		return px.New(c, objectType(c, string(v.S)), args...)
+	case "TName", "Deferred", "RObj":
+		return v.buildNamed(c)
 	}
 	panic("bad value description " + v.K)
 }
@@ -657,6 +676,20 @@ func (v *V) String() string {
 		return v.T.String()
 	case "Object":
 		return string(v.S) + "(" + subs() + ")"
+	case "TName":
+		a := ""
+		if string(v.A) != runtimeAuthority {
+			a = fmt.Sprintf(",authority=%q", string(v.A))
+		}
+		return fmt.Sprintf("TypedName(%s,%q%s)", string(v.N), string(v.S), a)
+	case "Deferred":
+		return fmt.Sprintf("Deferred(%q;%s)", string(v.S), subs())
+	case "RObj":
+		n := "R"
+		if v.B {
+			n = "S"
+		}
+		return fmt.Sprintf("%s{%d,%q,[%s]}", n, v.I, string(v.S), subs())
 	}
 	return fmt.Sprintf("%s(%q)", v.K, string(v.S))
 }
